@@ -118,3 +118,23 @@ PROPS["C15"] = {
     "outside": ["1 MB-scale messages and length fields >= 16 in the arbitrary-buffer harness", "the periodic flush ticker and the size-limit ticker (RotateFile / FlushAndSync are invoked directly)", "checkTotalSizeLimit deletion of oldest files", "catch-up replay into consensus.State (H4: with the consensus step harness)"],
     "timeout_quick": 420, "timeout_thorough": 3000,
 }
+
+PROPS["C12"] = {
+    "files": ["mempool/v0/clist_mempool.go", "mempool/v1/mempool.go", "mempool/cache.go", "libs/clist/clist.go"],
+    "groups": [
+        {"dir": "mempool/v0",
+         "quick": ["VP_C12_V0_k3_sync", "VP_C12_V0_k3_smallcache", "VP_C12_V0_k3_async", "VP_C12_V0_k3_async_size1", "VP_C12_V0_Reap_n2", "VP_C12_V0_Reap_n3"],
+         "thorough": ["VP_C12_V0_k4_sync", "VP_C12_V0_k4_async", "VP_C12_V0_k4_smallcache", "VP_C12_V0_k3_3tx"]},
+        {"dir": "mempool/v1",
+         "quick": ["VP_C12_V1_k3", "VP_C12_V1_k3_smallcache", "VP_C12_V1_k2_reap"],
+         "thorough": ["VP_C12_V1_k4", "VP_C12_V1_k4_smallcache", "VP_C12_V1_k3_reap"]},
+    ],
+    "bounds": {
+        "histories": "real CListMempool (v0) and TxMempool (v1); k = 3 (thorough 4) operations from {CheckTx of one of 2 (one configuration 3) transactions, delivery of one pending response (v0 async connection), block commit with a symbolic subset of the transactions, symbolic DeliverTx codes, then recheck}; the application's verdict per transaction is a symbolic code that changes at every block; v1 priorities 0/1",
+        "configuration": "Size 1..2, CacheSize 1..2 (including cache smaller than pool), MaxTxsBytes symbolic in [3,6], MaxTxBytes 3, KeepInvalidTxsInCache symbolic, Recheck on/off",
+        "reaping": "pool of 2..3 admitted transactions, ReapMaxTxs(max) for max in [-1,3], ReapMaxBytesMaxGas with symbolic limits in [-1,16]: prefix of the order, within the limits, maximal",
+    },
+    "stubs": ["mempool ABCI connection = harness object answering in request order (sync like the local client, or queued like the socket client)", "sha256 concrete (transaction keys)"],
+    "outside": ["concurrent submissions from several goroutines (the update lock protocol is C05-H3)", "gossip", "more than 3 transactions / 4 operations", "TTL-based expiry in v1"],
+    "timeout_quick": 600, "timeout_thorough": 3000,
+}
